@@ -1200,6 +1200,10 @@ class DigitalWaveform(Generic[TDigitalState]):
 
         new_timing = self._timing._append_timestamps(timestamps)
 
+        if np.may_share_memory(array, self._data):
+            # The array views this waveform's own buffer, which may be reallocated below.
+            array = array.copy()
+
         self._increase_capacity(len(array))
         self._set_timing(new_timing)
 
@@ -1228,7 +1232,10 @@ class DigitalWaveform(Generic[TDigitalState]):
         # Take the samples to append before this waveform changes: it may appear in its own list
         # of sources, and its sample_count and buffer change below.
         chunks = [
-            waveform.data.copy() if waveform is self else waveform.data for waveform in waveforms
+            waveform.data.copy()
+            if (waveform is self or np.may_share_memory(waveform._data, self._data))
+            else waveform.data
+            for waveform in waveforms
         ]
 
         self._increase_capacity(sum(len(chunk) for chunk in chunks))
